@@ -46,6 +46,17 @@ CHECKS["C16"] = dict(
    note=COMMON_NOTE + "Path formatting (-H/-T) is outside the Coq model: its non-interference rests on the syntactic frame lemma (attribute reads by name, getattr with literal name) and on the end-to-end runs.",
    design_ref="DESIGN.md section 4.1, 4.2, 6 C16, 11")
 
+CHECKS["C13"] = dict(
+   technique="Coq proof: list arithmetic (firstn/length, lia) + split/join string lemmas for relative imports; induction on prefix/suffix lists parametric in the file system; refutation witness for the round trip; exhaustive-within-bound differential correspondence on synthesised trees",
+   text=("Theorems C13a_relative_imports_resolve_as_python (for every module depth, level and dotted target the string built by "
+         "derive_absolute_module_name equals importlib's _resolve_name answer, and an escape yields '' or a '.'-prefixed string, never another module), "
+         "C13b_longest_existing_prefix (for every existence predicate), C13c_partial (for every file system and search path: derived name locates the same file "
+         "when no longer path suffix names an existing module), C13c_refuted (kernel-checked name-clash layout; known finding KF_C13_1). "
+         "The model (coq/model/ModNames.v) is run against rattr.module_locator.util on all (file, level, name) triples of fixed and random package trees; "
+         "importlib.util.resolve_name and the real file system are oracles; the Coq checkers judge rattr's own answers."),
+   note=COMMON_NOTE + "File system, search path, isort stdlib classification are parameters/oracles. Path components are assumed dot-free; the (base,target,level) memo of derive_absolute_module_name is cleared per case (a.py beside a/__init__.py is not modelled). The 'diagnosed' clause rests on find_module_name_and_spec answering None for ''/'.x' (checked per case on rattr) - the diagnostic call in RootContextBuilder is covered by C07's runs, not by this model.",
+   design_ref="DESIGN.md section 6 C13, 11")
+
 NOT_YET = {}
 
 def main():
